@@ -138,6 +138,7 @@ def s20_unsafe_twins(ctx):
         if fn['sig'].startswith('unsafe ') or ' unsafe fn' in fn['sig']:
             r.violate('unsafe-fn|' + p, 'unsafe fn %s' % p, fn['file'], fn['line'])
     # ---- (3) twins per diamond
+    examined = {}
     for d in sorted(diamond_fns):
         h = fu.hir[d]
         ifs = []
@@ -147,6 +148,7 @@ def s20_unsafe_twins(ctx):
             if any(e.get('e') == 'if' and _is_cfg_lit(e.get('cond')) for e, k in cx):
                 continue
             n_diamonds += 1
+            examined[d] = examined.get(d, 0) + 1
             key = 'diamond|%s@%s' % (d, '')
             if ife['cond']['v'] != 'true':
                 r.violate('diamond|%s|selector-off-in-feature-build' % d, 'a cfg! selector of %s is false in the unsafe_performance build: the '
@@ -210,11 +212,19 @@ def s20_unsafe_twins(ctx):
             r.violate('twin-helper|%s|not-twin' % d, 'the two definitions of %s are not `get_unchecked(slice,index)` vs `&slice[index]` on their own parameters' % d, hu['file'], hu['line'])
         else:
             r.sample({'fn': d, 'twin': 'feature-selected helper: get_unchecked(slice,index) / &slice[index]'})
-    # every flipped selector must belong to a function examined as diamond
+    # every flipped selector must be the condition of an examined diamond
     for k, fl in flipped.items():
+        if not fu.bodies[k]['generic']:
+            continue
         d = fu.bodies[k]['def']
+        r.inst('selector|' + d)
         if d not in diamond_fns:
-            r.violate('selector|%s|unexamined' % d, 'a cfg! selector flips between the builds in %s but guards no examined diamond' % d)
+            r.violate('selector|%s|unexamined' % d, 'a cfg! selector flips between the builds in %s but guards no examined diamond' % d,
+                      fu.bodies[k]['file'], fu.bodies[k]['line'])
+        elif len(fl) != examined.get(d, 0):
+            r.violate('selector|%s|not-a-plain-diamond' % d, '%s contains %d feature selector(s) but %d examined `if cfg!(..) {..} else {..}` diamond(s): a '
+                      'selector is combined with other conditions or used as a value, so feature-dependent behaviour escapes the twin check' % (
+                          d, len(fl), examined.get(d, 0)), fu.bodies[k]['file'], fu.bodies[k]['line'])
     r.floor('unsafe blocks', 9, n_unsafe)
     r.floor('diamonds', 7, n_diamonds)
     r.floor('bodies compared', 1500, len(ids_d & ids_u))
